@@ -27,3 +27,6 @@ Print Assumptions C05_float_literal.
 Print Assumptions C05_offset_codec.
 Print Assumptions C05_selector_codec.
 Print Assumptions C05_document_codec.
+Print Assumptions Known_C05_reserved_id_witness.
+Print Assumptions C05_no_substores_encode.
+Print Assumptions C05_no_substores_decode.
